@@ -507,10 +507,21 @@ func settledWithin(wd string, base int, when string, grace time.Duration) error 
 	for {
 		g := repoGoroutines()
 		fds := fdsInto(wd)
-		if g <= base && len(fds) == 0 {
+		var residue []string
+		if ents, err := os.ReadDir(wd); err == nil {
+			for _, en := range ents {
+				if tmpPat.MatchString(en.Name()) && !isForeign(en.Name()) {
+					residue = append(residue, en.Name())
+				}
+			}
+		}
+		if g <= base && len(fds) == 0 && len(residue) == 0 {
 			return nil
 		}
 		if time.Now().After(deadline) {
+			if len(residue) > 0 {
+				return fmt.Errorf("%s: temporary artefacts remain in work_dir: %v", when, residue)
+			}
 			if len(fds) > 0 {
 				return fmt.Errorf("%s: %d file descriptors still point into work_dir (e.g. %s)", when, len(fds), fds[0])
 			}
